@@ -16,6 +16,7 @@ hypothesis is checked on the values the real code returns by the correspondence.
 import SharkVerif.Lemmas.LinReg
 import SharkVerif.Lemmas.Stats
 import SharkVerif.Lemmas.Linear
+import SharkVerif.Lemmas.LDA
 import Mathlib.Tactic.NormNum
 import Mathlib.Tactic.IntervalCases
 namespace SharkVerif.C15
@@ -221,6 +222,36 @@ theorem pca_models_eval (V : Nat → Nat → Rat) (mu : Nat → Rat) (n m : Nat)
   · unfold LinearModel.eval pcaEncoder pcaEnc; rfl
   · unfold LinearModel.eval pcaDecoder pcaDec; rfl
 
+/-- **The variances of the principal components are the eigenvalues** (every dataset,
+partition, `m`): if `(V, ev)` meets the eigen-solver specification on the model's covariance
+(`Cov·v_i = ev_i·v_i`, orthonormal columns) then the encoded training data have mean 0 and
+covariance `diag(ev_0, …, ev_{m-1})` — non-increasing exactly when the solver returns sorted
+eigenvalues (checked on the real code by the correspondence). -/
+theorem pca_encoded_covariance (bs : List (List Vec)) (n m : Nat) (hne : bs.flatten ≠ [])
+    (V : Nat → Nat → Rat) (ev : Nat → Rat) (horth : Orthonormal V n m)
+    (heig : ∀ i, i < m → ∀ j, j < n → rsum n (fun k => covariance bs j k * V k i) = ev i * V j i) :
+    let enc := pcaEncoder V (mean bs) n m
+    ∀ a, a < m → ∀ b, b < m →
+      mean (enc.applyData n bs) a = 0
+      ∧ covariance (enc.applyData n bs) a b = if a = b then ev a else 0 := by
+  intro enc a ha b hb
+  obtain ⟨hm, hc⟩ := linear_image_covariance enc bs n a b ha hb hne
+  constructor
+  · rw [hm]
+    show rsum n (fun j => V j a * mean bs j) + -(rsum n fun j => V j a * mean bs j) = 0
+    ring
+  · rw [hc]
+    have h1 : ∀ i, i < n → rsum n (fun j => enc.W a i * covariance bs i j * enc.W b j) = ev b * (V i a * V i b) := by
+      intro i hi
+      show rsum n (fun j => V i a * covariance bs i j * V j b) = _
+      rw [rsum_congr (g := fun j => V i a * (covariance bs i j * V j b)) (fun j _ => by ring), rsum_mul_left,
+        heig b hb i hi]
+      ring
+    rw [rsum_congr h1, rsum_mul_left, horth a ha b hb]
+    by_cases e : a = b
+    · simp [e]
+    · simp [e]
+
 /-- **Both branches of `PCA::setData` agree** (eigen-relation `XᵀX` vs `XXᵀ`): for a centred
 design matrix `X` (`l × n`), if `u` is an eigenvector of `S = XXᵀ/l` with eigenvalue `λ`
 (small-sample branch) then the lifted direction `Xᵀu` is an eigenvector of the covariance
@@ -288,6 +319,51 @@ example : Orthonormal (fun j i => if j = i then 1 else 0) 2 2 := by
   intro a ha b hb
   interval_cases a <;> interval_cases b <;> norm_num [rsum]
 
+/-! ## Linear discriminant analysis -/
+
+/-- **LDA returns the Bayes rule of its estimates** (every dimension, number of classes, input
+`x` in the range of the covariance — every `x` when the pooled covariance is regular).
+Let `C` be the (symmetric) pooled covariance, `m_c` the class means, `π_c` the priors, and
+`z_c` the rows returned by `solve(C, means, right)`, specified by `z_c·C = m_c`.  Then the
+linear discriminant `δ_c(x) = x·z_c − ½ m_c·z_c + log π_c` that `LDA::train` installs
+equals the Gaussian log-posterior `−½ (x−m_c)ᵀC⁻¹(x−m_c) + log π_c` up to a term that does
+not depend on the class (`C⁻¹` expressed through any `y` with `C·y = x`:
+`(x−m_c)ᵀC⁻¹(x−m_c) = (y−z_c)ᵀC(y−z_c)`); hence both rank the classes identically. -/
+theorem lda_bayes_rule (d : Nat) (C z m : Nat → Nat → Rat) (logPrior : Nat → Rat) (x y : Nat → Rat)
+    (hsym : ∀ j, j < d → ∀ k, k < d → C j k = C k j)
+    (hy : ∀ j, j < d → rsum d (fun k => C j k * y k) = x j)
+    (c c' : Nat)
+    (hz : ∀ j, j < d → rsum d (fun k => z c k * C k j) = m c j)
+    (hz' : ∀ j, j < d → rsum d (fun k => z c' k * C k j) = m c' j) :
+    (ldaDiscriminant d z m logPrior c' x ≤ ldaDiscriminant d z m logPrior c x
+      ↔ -(1 / 2) * quadForm d C (fun j => y j - z c' j) (fun j => y j - z c' j) + logPrior c'
+        ≤ -(1 / 2) * quadForm d C (fun j => y j - z c j) (fun j => y j - z c j) + logPrior c) := by
+  rw [lda_discriminant_eq d C z m logPrior c x y hsym hz hy,
+    lda_discriminant_eq d C z m logPrior c' x y hsym hz' hy]
+  constructor <;> intro h <;> linarith
+
+/-- the LDA statistics do not depend on the batch partition (unweighted and weighted) -/
+theorem lda_batch_independent (bs bs' : CData) (h : bs.flatten = bs'.flatten) (classes : Nat) (reg : Rat) (c i j : Nat) :
+    ldaMean bs c j = ldaMean bs' c j ∧ ldaCov bs classes reg i j = ldaCov bs' classes reg i j
+      ∧ ldaPrior bs c = ldaPrior bs' c := by
+  have hcc : ∀ c, classCount bs c = classCount bs' c := by
+    intro c; simp only [classCount, bsum_eq_flatten, h]
+  have hm : ∀ c j, ldaMean bs c j = ldaMean bs' c j := by
+    intro c j; simp only [ldaMean, bsum_eq_flatten, h, hcc]
+  have hn : count bs = count bs' := by rw [count_eq_flatten, count_eq_flatten, h]
+  refine ⟨hm c j, ?_, ?_⟩
+  · simp only [ldaCov, bsum_eq_flatten, h, hn, hcc, hm]
+  · simp only [ldaPrior, hcc, hn]
+
+/-- non-vacuity of `lda_bayes_rule`: `C = I₂`, `z = m`, `y = x` -/
+example : (∀ j, j < 2 → ∀ k, k < 2 → (fun j k : Nat => if j = k then (1 : Rat) else 0) j k
+      = (fun j k : Nat => if j = k then (1 : Rat) else 0) k j)
+    ∧ ∀ j, j < 2 → rsum 2 (fun k => (fun c k : Nat => ((c + k : Nat) : Rat)) 1 k * (if k = j then (1 : Rat) else 0))
+      = (fun c k : Nat => ((c + k : Nat) : Rat)) 1 j := by
+  constructor
+  · intro j _ k _; by_cases h : j = k <;> simp [h, eq_comm]
+  · intro j hj; interval_cases j <;> norm_num [rsum]
+
 /-! ## Linear (ridge) regression -/
 
 /-- **Normal equations ⇔ vanishing gradient** (every `n`, `d`, label column `c`, batch
@@ -316,6 +392,14 @@ theorem linreg_normal_equations_iff_minimiser (bs : LData) (d : Nat) (lam : Rat)
     (β : Nat → Rat) :
     NormalEq bs d lam c β ↔ ∀ β', linregObjective bs d lam c β ≤ linregObjective bs d lam c β' :=
   ⟨minimiser_of_normalEq bs d lam hlam c β, normalEq_of_minimiser bs d lam hlam c β⟩
+
+/-- **Ridge regression is unique**: for `λ > 0` and a non-empty dataset (any rank, `d > n`
+included) two solutions of the normal equations coincide, so the trained weights are THE
+minimiser. -/
+theorem linreg_regularised_unique (bs : LData) (d : Nat) (lam : Rat) (hlam : 0 < lam) (hne : bs.flatten ≠ [])
+    (c : Nat) (β β' : Nat → Rat) (h : NormalEq bs d lam c β) (h' : NormalEq bs d lam c β') :
+    ∀ i, i ≤ d → β i = β' i :=
+  normalEq_unique bs d lam hlam hne c β β' h h'
 
 /-- specification of `solve(A, B, symm_semi_pos_def, left)`: it returns a solution
 whenever one exists -/
